@@ -1,0 +1,116 @@
+//go:build verif
+
+package stockholm
+
+// Contracts for the verification machinery (govc): comment-only file,
+// compiled (to nothing) only under the build tag "verif".
+//
+// Ghost state of the input: gfield(r, rem) = runes left in the bufio.Reader r
+// (assumed contract of ReadRune/UnreadRune in specs/externs.spec).
+// Progress measure of the parser: M = 2*rem + buf.n.
+
+//@ pure func skrem(s *Scanner) int = gfield(s.r, rem)
+//@ pure func sksok(s *Scanner) bool = s != nil && s.r != nil && gfield(s.r, rem) >= 0
+
+//@ func (*Scanner).read
+//@   props C03
+//@   requires sksok(s)
+//@   ensures sksok(s) && s.r == old(s.r)
+//@   ensures skrem(s) == old(skrem(s)) || (skrem(s) == old(skrem(s)) - 1 && gfield(s.r, unread) == 1)
+//@   ensures skrem(s) == old(skrem(s)) ==> result == 0 && gfield(s.r, unread) == 0
+//@   ensures old(skrem(s)) > 0 ==> skrem(s) == old(skrem(s)) - 1
+//@   modifies gfield(s.r, rem), gfield(s.r, unread)
+
+//@ func (*Scanner).unread
+//@   props C03
+//@   requires sksok(s)
+//@   ensures sksok(s) && s.r == old(s.r) && gfield(s.r, unread) == 0
+//@   ensures skrem(s) == old(skrem(s)) + (old(gfield(s.r, unread)) == 1 ? 1 : 0)
+//@   modifies gfield(s.r, rem), gfield(s.r, unread)
+
+// scanWhitespace is entered after an unread of the rune just read: it consumes at least that rune.
+// scanIdent may be entered at end of input (a lone \\r as last byte: the failed read cannot be unread): it then returns a one-rune identifier without consuming anything
+//@ func (*Scanner).scanWhitespace
+//@   props C03
+//@   requires sksok(s) && skrem(s) > 0
+//@   ensures sksok(s) && s.r == old(s.r) && skrem(s) < old(skrem(s)) && tok == WS
+//@   modifies gfield(s.r, rem), gfield(s.r, unread), gf(buflen), gfa(bufdata)
+//@   loop 1
+//@     invariant sksok(s) && s.r == old(s.r) && skrem(s) < old(skrem(s))
+//@     decreases skrem(s)
+
+//@ func (*Scanner).scanIdent
+//@   props C03
+//@   requires sksok(s)
+//@   ensures sksok(s) && s.r == old(s.r) && skrem(s) <= old(skrem(s)) && (old(skrem(s)) > 0 ==> skrem(s) < old(skrem(s))) && len(lit) >= 1
+//@   ensures tok == STOCKHOLM || tok == END || tok == IDENT || tok == NUMERIC
+//@   modifies gfield(s.r, rem), gfield(s.r, unread), gf(buflen), gfa(bufdata)
+//@   loop 1
+//@     invariant sksok(s) && s.r == old(s.r) && skrem(s) <= old(skrem(s)) && (old(skrem(s)) > 0 ==> skrem(s) < old(skrem(s))) && gf(buflen, buf) >= 1
+//@     decreases skrem(s)
+
+// Scan: either the end-of-file token, or at least one rune has been consumed
+//@ func (*Scanner).Scan
+//@   props C03
+//@   requires sksok(s)
+//@   ensures sksok(s) && s.r == old(s.r) && skrem(s) <= old(skrem(s))
+//@   ensures tok == EOF || skrem(s) < old(skrem(s))
+//@   ensures tok == EOF || tok == WS || tok == ENDOFLINE || tok == MARKUP || tok == STOCKHOLM || tok == END || tok == IDENT || tok == NUMERIC
+//@   ensures tok == IDENT || tok == NUMERIC || tok == STOCKHOLM || tok == END ==> len(lit) >= 1
+//@   modifies gfield(s.r, rem), gfield(s.r, unread), gf(buflen), gfa(bufdata)
+
+// ---- parser ----
+
+//@ pure func skpok(p *Parser) bool = p != nil && sksok(p.s) && (p.buf.n == 0 || p.buf.n == 1)
+//@ pure func skM(p *Parser) int = 2 * skrem(p.s) + p.buf.n
+
+// scan: the end-of-file token, or the progress measure strictly decreases
+//@ func (*Parser).scan
+//@   props C03
+//@   requires skpok(p)
+//@   ensures skpok(p) && p.s == old(p.s) && p.s.r == old(p.s.r) && skM(p) <= old(skM(p)) && p.buf.n == 0
+//@   ensures tok == EOF || skM(p) < old(skM(p))
+//@   modifies p.buf.n, p.buf.tok, p.buf.lit, gfield(p.s.r, rem), gfield(p.s.r, unread), gf(buflen), gfa(bufdata)
+
+//@ func (*Parser).scanIgnoreWhitespace
+//@   props C03
+//@   requires skpok(p)
+//@   ensures skpok(p) && p.s == old(p.s) && p.s.r == old(p.s.r) && skM(p) <= old(skM(p)) && p.buf.n == 0
+//@   ensures tok == EOF || skM(p) < old(skM(p))
+//@   modifies p.buf.n, p.buf.tok, p.buf.lit, gfield(p.s.r, rem), gfield(p.s.r, unread), gf(buflen), gfa(bufdata)
+
+// Parse: terminates; success implies a well-formed, non-empty alignment
+//@ func (*Parser).Parse
+//@   props C03
+//@   requires skpok(p)
+//@   ensures err == nil ==> al != nil && wfa(al)
+//@   ensures err == nil ==> nrows(al) >= 1 && al.length >= 0
+//@   modifies p.buf.n, p.buf.tok, p.buf.lit, gfield(rem), gfield(unread), gf(buflen), gfa(bufdata), field(align.seqbag.seqs), field(align.align.length), mem(*align.seq), maps(map[string]*align.seq), field(align.seqbag.alphabet), field(align.seqbag.ignoreidentical)
+//@   loop 1
+//@     invariant skpok(p) && err == nil && al != nil && wfa(al) && isalign(al)
+//@     decreases skM(p)
+//@   loop 2
+//@     invariant skpok(p) && err == nil && al != nil && wfa(al) && isalign(al)
+//@     invariant skM(p) < $v1
+//@     decreases (tok == EOF ? 0 : skM(p) + 1)
+
+// constructors establish the parser invariant required by Parse (input = any byte string: rem >= 0 unknown)
+//@ func NewScanner
+//@   props C03
+//@   ensures sksok(result) && fresh(result)
+//@   modifies nothing
+//@ func NewParser
+//@   props C03
+//@   ensures skpok(result) && fresh(result) && result.buf.n == 0
+//@   modifies nothing
+//@ func (*Parser).IgnoreIdentical
+//@   props C03
+//@   requires skpok(p)
+//@   ensures result == p && skpok(p) && skM(p) == old(skM(p))
+//@   modifies p.ignoreidentical
+//@ func (*Parser).Alphabet
+//@   props C03
+//@   requires skpok(p)
+//@   ensures result == p && skpok(p) && skM(p) == old(skM(p))
+//@   ensures p.alphabet == 2 || p.alphabet == 1 || p.alphabet == 0   // align.BOTH, align.NUCLEOTIDS, align.AMINOACIDS (constants of another package are not nameable here)
+//@   modifies p.alphabet
